@@ -133,7 +133,9 @@ Definition find_rules_full (sy : system) (name : string) (c : ctx) (e : env) (se
           | Ok groups =>
               match merge_rules groups [] with
               | Ok rules =>
-                  if negb (forallb (fun kv => condition_ok sem (snd kv)) rules) then (sy1, Err "unknown") else
+                  (* RuleFromMap fails on a condition that does not parse: such a candidate is logged and
+                     skipped (repair of D53; it used to fail the whole event) *)
+                  let rules := filter (fun kv => condition_ok sem (snd kv)) rules in
                   with_loc_e sy1 name (fun l => find_children_full l rules event (e_now e) false [])
               | Err x => (sy1, Err x)
               | Panic w => (sy1, Panic w)
